@@ -205,3 +205,31 @@ def run_consumer(sim, op, arg, sel, tag, extra=None):
         else:
             res[os.path.basename(p)] = env.real_open(p, 'rb').read()
     return ('ok', res)
+
+
+def fitted_world(sim, sc, out, sel=('A', 0), output_convolved=False, n_data_min=0):
+    """World -> package on disk -> convolve -> fit() of sc['sources'] into a file. Setup only: any failure here
+    discards the scenario (these stages are the subject of other properties). Returns (W, dir, path, records)."""
+    import random
+    from .author import World, source_line
+    W = World(sc['world'])
+    rng = random.Random(sc['theta_seed'])
+    sc['theta'] = theta_for(W, rng, len(W.fspec), dmin=sc['drange'][0])
+    d = W.write(sim.path('pkg'))
+    r = call(convolve_model_dir, d, W.filters())
+    if r[0] != 'ok':
+        out.discarded = 'setup-convolve:' + exc_name(r)
+        return None
+    names, ap = filter_args(W, sc)
+    outp = sim.path('fits.fitinfo')
+    text = ''.join(source_line(s) + '\n' for s in sc['sources'])
+    r = call(fit, env.SimReader(sim, text), names, ap, d, outp, n_data_min=n_data_min, output_format=tuple(sel),
+             output_convolved=output_convolved, **fitter_kwargs(W, sc))
+    if r[0] != 'ok':
+        out.discarded = 'setup-fit:' + exc_name(r)
+        return None
+    r = call(read_fit_raw, outp)
+    if r[0] != 'ok' or not r[1][1]:
+        out.discarded = 'setup-read:' + (exc_name(r) or 'empty')
+        return None
+    return W, d, outp, r[1][1]
